@@ -396,11 +396,10 @@ func (tb *TB) Eq(a, b *Term) *Term {
 		}
 	}
 	// ite(c, k1, k2) == k  with constants -> simplify (common for pool selectors)
-	if b.Const && a.Op == "ite" && a.Args[1].Const && a.Args[2].Const {
-		return tb.Ite(a.Args[0], tb.Eq(a.Args[1], b), tb.Eq(a.Args[2], b))
-	}
-	if a.Const && b.Op == "ite" && b.Args[1].Const && b.Args[2].Const {
-		return tb.Ite(b.Args[0], tb.Eq(b.Args[1], a), tb.Eq(b.Args[2], a))
+	if a.S.K != KFP {
+		if r, ok := tb.lift2(a, b, tb.Eq); ok {
+			return r
+		}
 	}
 	if a.id > b.id {
 		a, b = b, a
@@ -489,6 +488,9 @@ func (tb *TB) bvBin(op string, a, b *Term) *Term {
 		}
 		return tb.BV(w, r)
 	}
+	if r, ok := tb.lift2(a, b, func(x, y *Term) *Term { return tb.bvBin(op, x, y) }); ok {
+		return r
+	}
 	// identities
 	switch op {
 	case "bvadd", "bvor", "bvxor":
@@ -549,6 +551,9 @@ func (tb *TB) bvCmp(op string, a, b *Term) *Term {
 	if a == b {
 		return tb.Bool(op[3:] == "le")
 	}
+	if r, ok := tb.lift2(a, b, func(x, y *Term) *Term { return tb.bvCmp(op, x, y) }); ok {
+		return r
+	}
 	return tb.mk(op, SBool, a, b)
 }
 
@@ -573,6 +578,9 @@ func (tb *TB) Extract(hi, lo int, a *Term) *Term {
 		r := new(big.Int).Rsh(a.I, uint(lo))
 		return tb.BV(hi-lo+1, r)
 	}
+	if isConstTree(a) {
+		return tb.lift1(a, func(x *Term) *Term { return tb.Extract(hi, lo, x) })
+	}
 	// extract of zero/sign-extend below original width
 	if (a.Op == "zext" || a.Op == "sext") && lo == 0 && hi < a.Args[0].S.W {
 		return tb.Extract(hi, 0, a.Args[0])
@@ -587,6 +595,9 @@ func (tb *TB) ZExt(to int, a *Term) *Term {
 	if a.Const {
 		return tb.BV(to, a.I)
 	}
+	if isConstTree(a) {
+		return tb.lift1(a, func(x *Term) *Term { return tb.ZExt(to, x) })
+	}
 	return tb.intern(&Term{Op: "zext", S: SBV(to), Args: []*Term{a}, P: [2]int{to - a.S.W, 0}})
 }
 func (tb *TB) SExt(to int, a *Term) *Term {
@@ -595,6 +606,9 @@ func (tb *TB) SExt(to int, a *Term) *Term {
 	}
 	if a.Const {
 		return tb.BV(to, toSigned(a.I, a.S.W))
+	}
+	if isConstTree(a) {
+		return tb.lift1(a, func(x *Term) *Term { return tb.SExt(to, x) })
 	}
 	return tb.intern(&Term{Op: "sext", S: SBV(to), Args: []*Term{a}, P: [2]int{to - a.S.W, 0}})
 }
@@ -624,6 +638,9 @@ func (tb *TB) IAdd(a, b *Term) *Term {
 	if b.Const && b.I.Sign() == 0 {
 		return a
 	}
+	if r, ok := tb.lift2(a, b, tb.IAdd); ok {
+		return r
+	}
 	t := tb.mk("+", SInt, a, b)
 	if t.Lo == nil && t.Hi == nil {
 		t.Lo, t.Hi = addB(a.Lo, b.Lo), addB(a.Hi, b.Hi)
@@ -639,6 +656,9 @@ func (tb *TB) ISub(a, b *Term) *Term {
 	}
 	if a == b {
 		return tb.Inti(0)
+	}
+	if r, ok := tb.lift2(a, b, tb.ISub); ok {
+		return r
 	}
 	t := tb.mk("-", SInt, a, b)
 	if t.Lo == nil && t.Hi == nil {
@@ -660,6 +680,9 @@ func (tb *TB) IMul(a, b *Term) *Term {
 	}
 	if (a.Const && a.I.Sign() == 0) || (b.Const && b.I.Sign() == 0) {
 		return tb.Inti(0)
+	}
+	if r, ok := tb.lift2(a, b, tb.IMul); ok {
+		return r
 	}
 	t := tb.mk("*", SInt, a, b)
 	if t.Lo == nil && t.Hi == nil && a.Lo != nil && a.Hi != nil && b.Lo != nil && b.Hi != nil {
@@ -718,6 +741,9 @@ func (tb *TB) ILt(a, b *Term) *Term {
 	if a.Lo != nil && b.Hi != nil && a.Lo.Cmp(b.Hi) >= 0 {
 		return tb.False
 	}
+	if r, ok := tb.lift2(a, b, tb.ILt); ok {
+		return r
+	}
 	return tb.mk("<", SBool, a, b)
 }
 func (tb *TB) ILe(a, b *Term) *Term {
@@ -732,6 +758,9 @@ func (tb *TB) ILe(a, b *Term) *Term {
 	}
 	if a.Lo != nil && b.Hi != nil && a.Lo.Cmp(b.Hi) > 0 {
 		return tb.False
+	}
+	if r, ok := tb.lift2(a, b, tb.ILe); ok {
+		return r
 	}
 	return tb.mk("<=", SBool, a, b)
 }
